@@ -90,39 +90,65 @@ def parse_metro(impl, dim):
     return samples, u, log
 
 
-def reconstruct(samples, log, dim, imax, start_u, per_step, order_hint=None):
-    """From the PDF-call log: per step the proposal (None when the PDF was not called = proposal outside
-    the bounded domain) and the chain start. Returns dict or an error string."""
-    steps = {}
-    for c, pt in log:
-        k = c - start_u - dim          # uniforms consumed by the step's proposals = dim
-        if k < 0 or k % per_step != 0:
-            return "PDF called at an unexpected generator position (uniform count %d)" % c
-        steps.setdefault(k // per_step, []).append(pt)
-    for i, v in steps.items():
-        if len(v) != 2 or i >= imax:
-            return "PDF called %d times in step %d" % (len(v), i)
-    idx = sorted(steps)
+def x0_guess(m, dim):
+    """approximate chain start from the predicted uniforms: (point, tolerance per coordinate)"""
+    g = MT(m["seed"], m["skip"])
+    us = [g.u01() for _ in range(dim)]
+    dom = m["dom"]
+    if dom:
+        pt = [dom[2 * k] + (dom[2 * k + 1] - dom[2 * k]) * us[k] for k in range(dim)]
+        tol = [1e-9 * (abs(dom[2 * k]) + abs(dom[2 * k + 1])) for k in range(dim)]
+    else:
+        pt = [m["sig"][k] * ndtri(min(max(us[k], 1e-300), 1 - 1e-16)) for k in range(dim)]
+        tol = [m["sig"][k] * SQRT2 * 1.2e-4 for k in range(dim)]
+    return pt, tol
 
-    def consistent(order):
-        x = None
-        for i in idx:
-            a, b = steps[i]
-            cand, cur = (a, b) if order == 0 else (b, a)
-            if x is not None and cur != x[0] and cur != x[1]:
-                return False
-            x = (cand, cur)
-        return True
-    ok = [o for o in (0, 1) if consistent(o)]
-    if not ok:
-        return "PDF arguments are not (proposal, current point) of a chain"
-    order = ok[0] if len(ok) == 1 else (order_hint if order_hint in ok else ok[0])
-    cands, curs = [None] * imax, [None] * imax
-    for i in idx:
-        a, b = steps[i]
-        cands[i], curs[i] = (a, b) if order == 0 else (b, a)
-    x0 = curs[idx[0]] if idx else (samples[0] if samples else None)
-    return dict(cands=cands, curs=curs, x0=x0, order=order, ambiguous=len(ok) == 2)
+
+def reconstruct(samples, log, dim, imax, start_u, per_step, m):
+    """Canonical reading of the PDF-call log, independent of HOW OFTEN the implementation evaluates the density
+    (the property leaves that free: an implementation may cache PDF(x)): the chain only ever sits at its start or at
+    an earlier proposal, so the proposal of a step is the argument that has not been seen before; a step without any
+    evaluation had its proposal outside the bounded domain.  Returns dict(cands, x0, calls_per_step) or an error string."""
+    as_l = (lambda p: [p]) if dim == 1 else (lambda p: list(p))
+    guess, gtol = x0_guess(m, dim)
+    near0 = lambda p: all(abs(as_l(p)[k] - guess[k]) <= gtol[k] for k in range(dim))
+    steps, early = {}, {}
+    for c, pt in log:
+        k = c - start_u
+        if k < 0:
+            return "PDF called before the chain start was drawn (uniform count %d)" % c
+        i, r = divmod(k, per_step)
+        if i >= imax and not (i == imax and r == 0):
+            return "PDF called after the last step (uniform count %d)" % c
+        (steps if r >= dim else early).setdefault(i, []).append(pt)     # r >= dim: the step's proposal has been drawn
+    x0 = None
+    for i in sorted(early):                      # evaluations before a proposal is drawn can only be at the current point
+        if i == 0 and early[i]:
+            x0 = early[i][0]
+    seen = []
+    cands = [None] * imax
+    calls = {}
+    for i in sorted(steps):
+        pts = steps[i]
+        calls[len(pts)] = calls.get(len(pts), 0) + 1
+        new = []
+        for p_ in pts:
+            if p_ not in seen and p_ not in new and p_ != x0:
+                new.append(p_)
+        if x0 is None and not seen:
+            # first evaluated step: the start is among the arguments unless it was never evaluated
+            st = [p_ for p_ in new if near0(p_)]
+            if len(st) >= 1 and len(new) >= 2:
+                x0 = min(st, key=lambda p_: sum(abs(as_l(p_)[k] - guess[k]) for k in range(dim)))
+                new = [p_ for p_ in new if p_ != x0]
+        if len(new) > 1:
+            return "PDF evaluated at %d new points in step %d (one proposal per step)" % (len(new), i)
+        cands[i] = new[0] if new else pts[0]      # no new point: the proposal coincides with an earlier point
+        if cands[i] not in seen:
+            seen.append(cands[i])
+    if x0 is None:
+        x0 = next((p_ for p_ in samples if near0(p_)), None)
+    return dict(cands=cands, x0=x0, calls_per_step=calls, early=sum(len(v) for v in early.values()))
 
 
 def metro_request(base, dim, dom, rec):
@@ -281,7 +307,7 @@ def generate(tier, seed, ctx):
                 continue
             m = split_metro(base, dim)
             samples, u, log = parse_metro(im, dim)
-            rec = reconstruct(samples, log, dim, m["b"] + m["t"] * m["s"], dim, dim + 1)
+            rec = reconstruct(samples, log, dim, m["b"] + m["t"] * m["s"], dim, dim + 1, m)
             if isinstance(rec, str):
                 R.append(base + (" 0 0x0p+0 0" if dim == 1 else " 0 0x0p+0 0 0x0p+0 0"))
                 continue
@@ -501,12 +527,15 @@ def cmp_metro(rq, op, impl, tm, ctx):
     if any(not inside(p) for p in samples):
         return [fail("prop", name + ": sample outside the bounded domain", "")]
     if any(not inside(p) for _, p in log):
-        out.append(fail("prop", name + ": density evaluated outside the bounded domain", ""))
-    rec = reconstruct(samples, log, dim, imax, dim, dim + 1, ctx.get("order"))
+        bump(ctx, "metro_pdf_evaluated_outside_domain")      # not forbidden by the property: informational
+    rec = reconstruct(samples, log, dim, imax, dim, dim + 1, m)
     if isinstance(rec, str):
         return out + [fail("corr", name + ": " + rec, "")]
-    if not rec["ambiguous"]:
-        ctx["order"] = rec["order"]
+    # how often the density is evaluated is left free by the property (an implementation may cache PDF(x)): statistics only
+    for k_, v_ in rec["calls_per_step"].items():
+        bump(ctx, "metro_pdf_calls_per_evaluated_step=%d" % k_, v_)
+    if rec["early"]:
+        bump(ctx, "metro_pdf_calls_before_a_proposal", rec["early"])
     # class D: the proposals recorded in the first run (generate) are reproduced by this second run
     if m["cands"] is not None and m["cands"]:
         hi = [dom[1] + 1.0] if (dom and dim == 1) else ([dom[1] + 1.0, dom[3] + 1.0] if dom else [1.0] * dim)
@@ -515,33 +544,36 @@ def cmp_metro(rq, op, impl, tm, ctx):
             flat += (list(c) if dim == 2 else [c]) if c is not None else hi
         if flat != m["cands"]:
             return out + [fail("prop", name + ": two runs from equal generator states gave different proposals/outputs", "")]
-    # validate the proposals against the predicted uniforms (approximately: Quantile_Gauss has 1e-4 accuracy)
+    # validate the proposals against the predicted uniforms (approximately: Quantile_Gauss has 1e-4 accuracy): the chain
+    # sits at its start or at an earlier proposal, so each proposal must be Sample_Gauss(s, sigma) for one of those points s
     g = MT(m["seed"], m["skip"])
     us0 = [g.u01() for _ in range(dim)]
-    def cur_at(i):
-        j = next((j for j in range(i, imax) if rec["curs"][j] is not None), None)
-        if j is not None:
-            return rec["curs"][j]
-        return None
+    as_l = (lambda p: [p]) if dim == 1 else (lambda p: list(p))
+    pts = [as_l(rec["x0"])] if rec["x0"] is not None else []
     for i in range(imax):
         uc = [g.u01() for _ in range(dim)]
         g.u01()
-        x = cur_at(i)
-        if x is None:
+        if not pts:
+            c = rec["cands"][i]
+            if c is not None:
+                pts.append(as_l(c))
             continue
-        cur = [x] if dim == 1 else list(x)
-        appr = [cur[k] + m["sig"][k] * ndtri(min(max(uc[k], 1e-300), 1 - 1e-16)) for k in range(dim)]
-        tol = [m["sig"][k] * (SQRT2 * 1.2e-4) + 1e-12 * abs(cur[k]) for k in range(dim)]
+        step = [m["sig"][k] * ndtri(min(max(uc[k], 1e-300), 1 - 1e-16)) for k in range(dim)]
         c = rec["cands"][i]
         if c is not None:
-            cc = [c] if dim == 1 else list(c)
-            if any(abs(cc[k] - appr[k]) > tol[k] for k in range(dim)) and all(1e-9 < uc[k] < 1 - 1e-9 for k in range(dim)):
-                out.append(fail("corr", name + ": proposal is not Sample_Gauss(x, sigma) of the predicted uniform", "step %d: %r vs %r" % (i, cc, appr)))
+            cc = as_l(c)
+            okp = any(all(abs(cc[k] - (s_[k] + step[k])) <= m["sig"][k] * (SQRT2 * 1.2e-4) + 1e-12 * abs(s_[k]) for k in range(dim)) for s_ in pts)
+            if not okp and all(1e-9 < uc[k] < 1 - 1e-9 for k in range(dim)):
+                out.append(fail("corr", name + ": proposal is not Sample_Gauss(x, sigma) of the predicted uniform for any earlier chain point x", "step %d: %r" % (i, cc)))
                 break
+            if cc not in pts:
+                pts.append(cc)
         elif dom:
-            # PDF not called: the proposal must be outside the domain (beyond the approximation error)
-            if all(dom[2 * k] + tol[k] < appr[k] < dom[2 * k + 1] - tol[k] for k in range(dim)):
-                out.append(fail("corr", name + ": a proposal inside the domain was treated as outside", "step %d: %r" % (i, appr))); break
+            # density not evaluated: the proposal must be outside the domain (beyond the approximation error) for SOME possible x
+            def ins(s_):
+                return all(dom[2 * k] + m["sig"][k] * 2e-4 + 1e-12 * abs(s_[k]) < s_[k] + step[k] < dom[2 * k + 1] - m["sig"][k] * 2e-4 - 1e-12 * abs(s_[k]) for k in range(dim))
+            if all(ins(s_) for s_ in pts):
+                out.append(fail("corr", name + ": a proposal inside the domain was treated as outside", "step %d" % i)); break
     if out:
         return out
     if tm is None:
